@@ -18,8 +18,9 @@ Inductive stop :=
 | SCompact (err : Z)
 | SEvict
 | SClose (err : Z)
-| SReopen (crash : bool) (listing : list (Z * (Z * Z * Z * Z))) (err : Z)
-| SObserve (segs : list (Z * Z)) (nmem : Z).
+| SReopen (crash : Z) (listing : list (Z * (Z * Z * Z * Z))) (err : Z)
+| SObserve (segs : list (Z * Z)) (nmem : Z)
+| SInFlight (compact : bool).
 
 Definition pfst4 : P (Z * Z * Z * Z) := a <- pz ;; b <- pz ;; c <- pz ;; d <- pz ;; ret (a, b, c, d).
 
@@ -34,11 +35,13 @@ Definition pstop : P stop :=
   else if t =? 6 then (e <- pz ;; ret (SCompact e))
   else if t =? 7 then ret SEvict
   else if t =? 8 then (e <- pz ;; ret (SClose e))
-  else if t =? 9 then (c <- pbool ;; l <- plist (ppair pz pfst4) ;; e <- pz ;; ret (SReopen c l e))
+  else if t =? 9 then (c <- pz ;; l <- plist (ppair pz pfst4) ;; e <- pz ;; ret (SReopen c l e))
   else if t =? 10 then (sg <- ppairs ;; n <- pz ;; ret (SObserve sg n))
+  else if t =? 11 then (c <- pbool ;; ret (SInFlight c))
   else (fun _ => None).
 
-Definition fstate_of (z : Z) : fstate := if z =? 0 then FComplete else if z =? 1 then FBroken else FMissing.
+Definition fstate_of (z : Z) : fstate :=
+  if z =? 0 then FComplete else if z =? 1 then FBroken else if z =? 3 then FEmpty else if z =? 4 then FTrailer else FMissing.
 
 Record sth := {
   sh_model : store;
@@ -49,7 +52,7 @@ Record sth := {
   sh_cfg : params * (bool * bool * bool) * (Z * Z);
   sh_session : Z;
   sh_spec_session : list (Z * Z);   (* id -> session in which it was (last) added *)
-  sh_crashed : bool;
+  sh_crashed : bool; sh_corrupt : bool;
   sh_i : Z; sh_weak : Z; sh_found : list Z }.
 
 Definition est_size (hasvec : bool) (v : vec) (textlen : Z) (fields : list (str * mvalue)) : Z :=
@@ -57,16 +60,35 @@ Definition est_size (hasvec : bool) (v : vec) (textlen : Z) (fields : list (str 
 
 Definition ids_of (l : list (Z * Z)) : list Z := map fst l.
 
+Definition triple_ids (t : triple) : list Z :=
+  (match t_vec t with Some vs => map e_id (all_entries vs) | None => [] end) ++
+  (match t_txt t with Some bs => map fst (b_docs bs) | None => [] end) ++
+  (match t_meta t with Some ms => m_all ms | None => [] end).
+
+Definition seg_complete (hv ht hm : bool) (g : segment) : bool :=
+  let '(fh, fv, ft, fm) := sg_files g in
+  let ok (f : fstate) (c : bool) := negb c || match f with FComplete => true | _ => false end in
+  ok fh true && ok fv hv && ok ft ht && ok fm hm.
+
+(** after a crash: only documents of COMPLETE segments may be returned (a partial segment must be
+    ignored as a whole) *)
+Definition only_complete_segments (h : sth) (out : list (Z * Z)) : bool :=
+  let '(_, (hv, ht, hm), _) := sh_cfg h in
+  let allowed := flat_map (fun g => if seg_complete hv ht hm g then triple_ids (sg_T g) else []) (s_segs (sh_model h)) in
+  subsetz (map fst out) allowed.
+
 (** what the property demands of one search answer, given the specification state *)
 Definition spec_ok (h : sth) (rq : hyrequest) (out : list (Z * Z)) : bool :=
   let spec := if sh_crashed h then sh_durable h else sh_spec h in
   subsetz (ids_of out) (sh_added h) &&
+  (negb (sh_crashed h) || only_complete_segments h out) &&
   match hy_search spec rq with
   | HOk o =>
       let want := firstn (ho_n o) (ho_full o) in
       let all_wanted := (length (ho_full o) <=? ho_n o)%nat in       (* k large enough: nothing was cut *)
       let vector_only := match hq_txt rq, hq_filters rq, hq_groups rq with [], [], [] => true | _, _, _ => false end in
       if ho_weak o then true
+      else if sh_corrupt h then true      (* a corrupted segment's documents are expected to be missing *)
       else if sh_crashed h then (negb all_wanted) || subsetz (ids_of want) (ids_of out)
       else if vector_only && match p_kind (hy_p spec) with KFlat => true | _ => false end
            then match_results64 (ho_full o) (ho_n o) out || (negb (nodupz (map (fun p => F64.key (snd p)) (ho_full o))))
@@ -77,7 +99,7 @@ Definition spec_ok (h : sth) (rq : hyrequest) (out : list (Z * Z)) : bool :=
 
 Definition upd_model (h : sth) (m : store) : sth :=
   {| sh_model := m; sh_spec := sh_spec h; sh_durable := sh_durable h; sh_added := sh_added h; sh_known := sh_known h;
-     sh_cfg := sh_cfg h; sh_session := sh_session h; sh_spec_session := sh_spec_session h; sh_crashed := sh_crashed h;
+     sh_cfg := sh_cfg h; sh_session := sh_session h; sh_spec_session := sh_spec_session h; sh_crashed := sh_crashed h; sh_corrupt := sh_corrupt h;
      sh_i := sh_i h + 1; sh_weak := sh_weak h; sh_found := sh_found h |}.
 
 Definition remember_segs (h : sth) (m : store) : list (Z * segment) :=
@@ -96,7 +118,7 @@ Definition ststep (h : sth) (o : stop) : sth + list Z :=
         if e =? 0 then
           inl {| sh_model := s'; sh_spec := fst (hy_add (sh_spec h) id vo toks fields); sh_durable := sh_durable h;
                  sh_added := id :: sh_added h; sh_known := sh_known h; sh_cfg := sh_cfg h; sh_session := sh_session h;
-                 sh_spec_session := (id, sh_session h) :: sh_spec_session h; sh_crashed := sh_crashed h;
+                 sh_spec_session := (id, sh_session h) :: sh_spec_session h; sh_crashed := sh_crashed h; sh_corrupt := sh_corrupt h;
                  sh_i := sh_i h + 1; sh_weak := sh_weak h; sh_found := sh_found h |}
         else inl h1
       else errmis e err
@@ -106,7 +128,7 @@ Definition ststep (h : sth) (o : stop) : sth + list Z :=
         if e =? 0 then
           inl {| sh_model := s'; sh_spec := fst (hy_remove (sh_spec h) id); sh_durable := sh_durable h;
                  sh_added := sh_added h; sh_known := sh_known h; sh_cfg := sh_cfg h; sh_session := sh_session h;
-                 sh_spec_session := sh_spec_session h; sh_crashed := sh_crashed h;
+                 sh_spec_session := sh_spec_session h; sh_crashed := sh_crashed h; sh_corrupt := sh_corrupt h;
                  sh_i := sh_i h + 1; sh_weak := sh_weak h; sh_found := sh_found h |}
         else
           (* a Remove that fails although the document is live in the specification (it sits in a
@@ -114,7 +136,7 @@ Definition ststep (h : sth) (o : stop) : sth + list Z :=
           match info_get id (hy_info (sh_spec h)) with
           | Some _ => inl {| sh_model := s'; sh_spec := sh_spec h; sh_durable := sh_durable h; sh_added := sh_added h;
                              sh_known := sh_known h; sh_cfg := sh_cfg h; sh_session := sh_session h;
-                             sh_spec_session := sh_spec_session h; sh_crashed := sh_crashed h;
+                             sh_spec_session := sh_spec_session h; sh_crashed := sh_crashed h; sh_corrupt := sh_corrupt h;
                              sh_i := sh_i h + 1; sh_weak := sh_weak h; sh_found := if memz 3 (sh_found h) then sh_found h else 3 :: sh_found h |}
           | None => inl (upd_model h s')
           end
@@ -125,7 +147,7 @@ Definition ststep (h : sth) (o : stop) : sth + list Z :=
         inl {| sh_model := s'; sh_spec := sh_spec h;
                sh_durable := if e =? 0 then sh_spec h else sh_durable h;
                sh_added := sh_added h; sh_known := remember_segs h s'; sh_cfg := sh_cfg h; sh_session := sh_session h;
-               sh_spec_session := sh_spec_session h; sh_crashed := sh_crashed h;
+               sh_spec_session := sh_spec_session h; sh_crashed := sh_crashed h; sh_corrupt := sh_corrupt h;
                sh_i := sh_i h + 1; sh_weak := sh_weak h; sh_found := sh_found h |}
       else errmis e err
   | SClose err =>
@@ -134,7 +156,7 @@ Definition ststep (h : sth) (o : stop) : sth + list Z :=
         inl {| sh_model := s'; sh_spec := sh_spec h;
                sh_durable := if e =? 0 then sh_spec h else sh_durable h;
                sh_added := sh_added h; sh_known := remember_segs h s'; sh_cfg := sh_cfg h; sh_session := sh_session h;
-               sh_spec_session := sh_spec_session h; sh_crashed := sh_crashed h;
+               sh_spec_session := sh_spec_session h; sh_crashed := sh_crashed h; sh_corrupt := sh_corrupt h;
                sh_i := sh_i h + 1; sh_weak := sh_weak h; sh_found := sh_found h |}
       else errmis e err
   | SRotate => inl (upd_model h (rotate s))
@@ -144,7 +166,7 @@ Definition ststep (h : sth) (o : stop) : sth + list Z :=
       if Bool.eqb (e =? 0) (err =? 0) then
         inl {| sh_model := s'; sh_spec := sh_spec h; sh_durable := sh_durable h; sh_added := sh_added h;
                sh_known := remember_segs h s'; sh_cfg := sh_cfg h; sh_session := sh_session h;
-               sh_spec_session := sh_spec_session h; sh_crashed := sh_crashed h;
+               sh_spec_session := sh_spec_session h; sh_crashed := sh_crashed h; sh_corrupt := sh_corrupt h;
                sh_i := sh_i h + 1; sh_weak := sh_weak h; sh_found := sh_found h |}
       else errmis e err
   | SReopen crash listing err =>
@@ -164,8 +186,16 @@ Definition ststep (h : sth) (o : stop) : sth + list Z :=
         inl {| sh_model := open_store p hv ht hm limit cthr (isort (fun g => sg_id g) segs) counter;
                sh_spec := sh_spec h; sh_durable := sh_durable h; sh_added := sh_added h; sh_known := sh_known h;
                sh_cfg := sh_cfg h; sh_session := sh_session h + 1; sh_spec_session := sh_spec_session h;
-               sh_crashed := sh_crashed h || crash;
+               sh_crashed := sh_crashed h || negb (crash =? 0); sh_corrupt := sh_corrupt h || (crash =? 2);
                sh_i := sh_i h + 1; sh_weak := sh_weak h; sh_found := sh_found h |}
+  | SInFlight compact =>
+      (* the operation during which the process dies: run it in the model only to learn what the
+         segment files would contain; nothing it does counts as completed *)
+      let s' := if compact then fst (st_compact s) else st_flush_internal s in
+      inl {| sh_model := s'; sh_spec := sh_spec h; sh_durable := sh_durable h; sh_added := sh_added h;
+             sh_known := remember_segs h s'; sh_cfg := sh_cfg h; sh_session := sh_session h;
+             sh_spec_session := sh_spec_session h; sh_crashed := sh_crashed h; sh_corrupt := sh_corrupt h;
+             sh_i := sh_i h + 1; sh_weak := sh_weak h; sh_found := sh_found h |}
   | SObserve segs nmem =>
       let ms := map (fun g => (sg_id g, if sg_cached g then 1 else 0)) (s_segs s) in
       if plist_eqb ms segs && (nmem =? Z.of_nat (length (s_queue s))) then inl (upd_model h s)
@@ -185,17 +215,21 @@ Definition ststep (h : sth) (o : stop) : sth + list Z :=
               if sok then
                 inl {| sh_model := s'; sh_spec := sh_spec h; sh_durable := sh_durable h; sh_added := sh_added h;
                        sh_known := sh_known h; sh_cfg := sh_cfg h; sh_session := sh_session h;
-                       sh_spec_session := sh_spec_session h; sh_crashed := sh_crashed h;
+                       sh_spec_session := sh_spec_session h; sh_crashed := sh_crashed h; sh_corrupt := sh_corrupt h;
                        sh_i := sh_i h + 1; sh_weak := sh_weak h + (if so_weak o then 1 else 0); sh_found := sh_found h |}
               else
                 (* implementation = faithful model, and the specification is violated: a listed
                    mechanism.  1 = lost inside a session (shared templates overwritten by a segment
                    load / compaction), 2 = lost across a restart (active memtable never flushed, or
                    segment content from the shared templates) *)
-                let code := if 1 <? sh_session h then 2 else 1 in
+                let trailer := existsb (fun g => let '(a, b, c, d) := sg_files g in
+                                                 existsb (fun f => match f with FTrailer => true | _ => false end) [a; b; c; d])
+                                       (s_segs s) in
+                let code := if sh_crashed h && negb (only_complete_segments h out) then (if trailer then 5 else 4)
+                            else if 1 <? sh_session h then 2 else 1 in
                 inl {| sh_model := s'; sh_spec := sh_spec h; sh_durable := sh_durable h; sh_added := sh_added h;
                        sh_known := sh_known h; sh_cfg := sh_cfg h; sh_session := sh_session h;
-                       sh_spec_session := sh_spec_session h; sh_crashed := sh_crashed h;
+                       sh_spec_session := sh_spec_session h; sh_crashed := sh_crashed h; sh_corrupt := sh_corrupt h;
                        sh_i := sh_i h + 1; sh_weak := sh_weak h;
                        sh_found := if memz code (sh_found h) then sh_found h else code :: sh_found h |}
             else inr (verdict false sok (sh_i h :: 0 :: flatten_pairs (firstn (so_n o) (so_merged o))))
@@ -218,4 +252,4 @@ Definition chk_storehist : P (list Z) :=
                   hy_meta := if hm then Some minit else None; hy_info := [] |} in
   ret (strun {| sh_model := open_store p hv ht hm limit cthr [] 0; sh_spec := spec0; sh_durable := spec0;
                 sh_added := []; sh_known := []; sh_cfg := (p, (hv, ht, hm), (limit, cthr)); sh_session := 1;
-                sh_spec_session := []; sh_crashed := false; sh_i := 0; sh_weak := 0; sh_found := [] |} ops).
+                sh_spec_session := []; sh_crashed := false; sh_corrupt := false; sh_i := 0; sh_weak := 0; sh_found := [] |} ops).
